@@ -12,6 +12,7 @@ CONSTANTS N = 3
  AggBatchFor = "none"
  MemoVerifier = TRUE
  DomainCache = FALSE
+ PeerVerifyLimit = 0
  ReplayPolicy = "admit"
 INVARIANTS TypeOK OnlyValidEnter ValidEnters PeerAllOrNothing
 CHECK_DEADLOCK FALSE
